@@ -7,6 +7,8 @@ use crate::ensure_p;
 use crate::world::*;
 use axelar_gateway::types::Message;
 use proptest::prelude::*;
+#[allow(unused_imports)]
+use crate::prop_oneof;
 use serde::{Deserialize, Serialize};
 use soroban_sdk::testutils::Address as _;
 use soroban_sdk::{Address, BytesN};
